@@ -131,6 +131,8 @@ type c35world struct {
 	plains []string
 	rules  []*ruleDef
 	byName map[string]*ruleDef
+	wide   bool   // 6-10 rules, most of them reading the hub field (fan-out of dependents)
+	hub    string // the plain field most rules read in a wide world
 }
 
 func (w *c35world) isRule(f string) bool { _, ok := w.byName[f]; return ok }
@@ -335,6 +337,13 @@ func genWorld(t *rapid.T) *c35world {
 	w := &c35world{byName: map[string]*ruleDef{}}
 	np := 2 + gen.Uniform(t, "nplain", 4)
 	nr := 1 + gen.Uniform(t, "nrule", 4)
+	if gen.Chance(t, "wide", 50) {
+		// many rules over the same base field: a field then has 3-7 dependents
+		w.wide = true
+		np = 2 + gen.Uniform(t, "nplainwide", 3)
+		nr = 6 + gen.Uniform(t, "nrulewide", 5)
+		w.hub = "p0"
+	}
 	for i := 0; i < np; i++ {
 		w.plains = append(w.plains, fmt.Sprintf("p%d", i))
 	}
@@ -352,6 +361,9 @@ func genWorld(t *rapid.T) *c35world {
 		}
 		rd.numeric = gen.Chance(t, "numeric", 60)
 		depth := 1 + gen.Uniform(t, "depth", 3)
+		if w.wide {
+			depth = gen.Uniform(t, "depthwide", 3) // small rules, many of them
+		}
 		if rd.numeric {
 			rd.e = g.numExpr(depth)
 			if rd.e.k == xLit { // a constant rule has no dependencies: make it depend on something
@@ -359,6 +371,14 @@ func genWorld(t *rapid.T) *c35world {
 			}
 		} else {
 			rd.e = &expr{k: xCat, a: g.anyExpr(depth), b: g.anyExpr(depth - 1)}
+		}
+		if w.wide && gen.Chance(t, "readshub", 75) {
+			hub := &expr{k: xField, f: w.hub}
+			if rd.numeric {
+				rd.e = &expr{k: xArith, op: gen.Pick(t, "hubop", []byte{'+', '-'}), a: hub, b: rd.e}
+			} else {
+				rd.e = &expr{k: xCat, a: hub, b: rd.e}
+			}
 		}
 		rd.form = gen.Uniform(t, "form", 3)
 		switch {
@@ -405,6 +425,12 @@ type c35rec struct {
 	plain    map[string]mval // present plain members
 	st       map[string]int
 	cached   map[string]bool // rule fields that may hold a saved result (valid or not)
+	memo     map[string]mval // rule values for the current plain values (cleared on every change)
+	// statistics only: which rules have read a field on this record or its
+	// ancestors (how many dependents the field has), and which rules were
+	// evaluated for the first time since the last Copy this record took part in
+	depsSeen map[string]map[string]bool
+	firsts   map[string]bool
 	obs      []*c35obs
 	readonly bool
 	name     string
@@ -422,7 +448,15 @@ func (r *c35rec) staleCache() bool {
 
 func (w *c35world) seen(r *c35rec, f string) mval {
 	if rd, ok := w.byName[f]; ok {
-		return eval(rd.e, func(g string) mval { return w.seen(r, g) }, nil)
+		if v, ok := r.memo[f]; ok {
+			return v
+		}
+		v := eval(rd.e, func(g string) mval { return w.seen(r, g) }, nil)
+		if r.memo == nil {
+			r.memo = map[string]mval{}
+		}
+		r.memo[f] = v
+		return v
 	}
 	if v, ok := r.plain[f]; ok {
 		return v
@@ -456,11 +490,20 @@ func (w *c35world) touch(r *c35rec, f string, events *c35events) {
 		return // read-only records cannot save results
 	}
 	was := r.st[f]
+	if !r.cached[f] && r.firsts != nil {
+		r.firsts[f] = true
+	}
 	r.cached[f] = true
 	if was == stValid {
 		return
 	}
 	r.st[f] = stValid
+	for g := range w.directReads(r, rd) {
+		if r.depsSeen[g] == nil {
+			r.depsSeen[g] = map[string]bool{}
+		}
+		r.depsSeen[g][f] = true
+	}
 	if was == stInvalid {
 		for g := range w.directReads(r, rd) {
 			w.touch(r, g, events)
@@ -642,6 +685,14 @@ func (r *c35run) settle(rec *c35rec, text string, required []string) {
 	}
 }
 
+func ruleNames(w *c35world) []string {
+	var r []string
+	for _, rd := range w.rules {
+		r = append(r, rd.name)
+	}
+	return r
+}
+
 func keys(m map[string]bool) []string {
 	var r []string
 	for k := range m {
@@ -714,7 +765,7 @@ func c35script(t *rapid.T, erec *ev.Rec, l *lang) {
 		}
 	}
 
-	first := &c35rec{real: r.must(l.call(c35New)), plain: map[string]mval{}, st: map[string]int{}, cached: map[string]bool{}, name: "r0"}
+	first := &c35rec{real: r.must(l.call(c35New)), plain: map[string]mval{}, st: map[string]int{}, cached: map[string]bool{}, depsSeen: map[string]map[string]bool{}, name: "r0"}
 	r.desc = append(r.desc, "r0 = Record()")
 	recs := []*c35rec{first}
 	rulesFirst := gen.Chance(t, "rulesfirst", 50)
@@ -725,6 +776,7 @@ func c35script(t *rapid.T, erec *ev.Rec, l *lang) {
 		if gen.Chance(t, "init", 70) {
 			v := mi(gen.Pick(t, "initv", c35lits))
 			first.plain[p] = v
+			first.memo = nil
 			r.must(l.call(c35Set, first.real, core.SuStr(p), v.value()))
 			r.desc = append(r.desc, fmt.Sprintf("r0.%s = %v", p, v))
 		}
@@ -789,6 +841,22 @@ func c35script(t *rapid.T, erec *ev.Rec, l *lang) {
 	}
 
 	nops := 10 + gen.Uniform(t, "nops", 31)
+	if w.wide {
+		nops = 20 + gen.Uniform(t, "nopswide", 36)
+	}
+	maxRecs := 3
+	if w.wide {
+		maxRecs = 4
+	}
+	// statistics on copies: per copy the rules evaluated for the first time
+	// afterwards on the source and on the copy, and the fields whose number of
+	// dependents at copy time leaves spare capacity in a Go slice grown by append
+	type copyPair struct {
+		src, dst map[string]bool
+		spare    []string
+	}
+	var pairs []copyPair
+	spareCap := func(n int) bool { return n == 3 || (n >= 5 && n <= 7) || (n >= 9 && n <= 15) }
 	for step := 1; step <= nops; step++ {
 		rec := recs[gen.Uniform(t, "rec", len(recs))]
 		useLang := gen.Chance(t, "lang", 60)
@@ -798,6 +866,9 @@ func c35script(t *rapid.T, erec *ev.Rec, l *lang) {
 		}
 		sr := rec.real.(*core.SuRecord)
 		weights := []int{26, 30, 6, 3, 4, 8, 8, 3, 2}
+		if w.wide {
+			weights = []int{22, 36, 3, 2, 9, 5, 6, 2, 1}
+		}
 		// set, get, delete plain, delete rule, copy, invalidate, observer, remove observer, readonly
 		if rec.readonly {
 			weights = []int{0, 60, 0, 0, 10, 0, 0, 0, 0}
@@ -813,6 +884,9 @@ func c35script(t *rapid.T, erec *ev.Rec, l *lang) {
 		switch opi {
 		case 0: // set a plain field
 			p := gen.Pick(t, "field", w.plains)
+			if w.wide && gen.Chance(t, "sethub", 50) {
+				p = w.hub
+			}
 			var v mval
 			if gen.Chance(t, "setempty", 6) {
 				v = ms("")
@@ -834,6 +908,7 @@ func c35script(t *rapid.T, erec *ev.Rec, l *lang) {
 				r.lab["set_same_value"]++
 			}
 			rec.plain[p] = v
+			rec.memo = nil
 			if useLang {
 				r.must(l.call(c35Set, rec.real, core.SuStr(p), v.value()))
 			} else {
@@ -842,7 +917,16 @@ func c35script(t *rapid.T, erec *ev.Rec, l *lang) {
 			r.settle(rec, text, required)
 		case 1: // get
 			var f string
-			if gen.Chance(t, "getrule", 80) {
+			var fresh []string
+			for _, rd := range w.rules {
+				if !rec.cached[rd.name] {
+					fresh = append(fresh, rd.name)
+				}
+			}
+			if w.wide && len(fresh) > 0 && gen.Chance(t, "getfresh", 55) {
+				// a rule this record has not evaluated yet: registers new dependencies
+				f = gen.Pick(t, "freshrule", fresh)
+			} else if gen.Chance(t, "getrule", 80) {
 				f = gen.Pick(t, "rule", w.rules).name
 			} else {
 				f = gen.Pick(t, "field", w.plains)
@@ -871,6 +955,7 @@ func c35script(t *rapid.T, erec *ev.Rec, l *lang) {
 						w.change(rec, f, false, &r.ev)
 					}
 					delete(rec.plain, f)
+					rec.memo = nil
 				}
 			} else {
 				// the cached result is gone; the next access calls the rule
@@ -889,13 +974,37 @@ func c35script(t *rapid.T, erec *ev.Rec, l *lang) {
 			var cv core.Value
 			if useLang {
 				cv = r.must(l.call(c35Copy, rec.real))
+			} else if gen.Chance(t, "slice0", 40) {
+				// Container.Slice(0): the copy the interpreter makes for @args
+				text = fmt.Sprintf("%s.Slice(0) [go]", rec.name)
+				r.must(nil, l.protect(func() { cv = sr.Slice(0) }), text)
+				r.lab["copy_by_slice"]++
 			} else {
 				r.must(nil, l.protect(func() { cv = sr.Copy() }), text)
 			}
 			if _, ok := cv.(*core.SuRecord); !ok || cv == rec.real {
 				r.failf("%s returned %T", text, cv)
 			}
-			nc := &c35rec{real: cv, plain: map[string]mval{}, st: map[string]int{}, cached: map[string]bool{}}
+			nc := &c35rec{real: cv, plain: map[string]mval{}, st: map[string]int{}, cached: map[string]bool{}, depsSeen: map[string]map[string]bool{}}
+			maxDeps := 0
+			var spare []string
+			for _, f := range append(append([]string{}, w.plains...), ruleNames(w)...) {
+				ds := rec.depsSeen[f]
+				nc.depsSeen[f] = map[string]bool{}
+				for k := range ds {
+					nc.depsSeen[f][k] = true
+				}
+				maxDeps = max(maxDeps, len(ds))
+				if spareCap(len(ds)) {
+					spare = append(spare, f)
+				}
+			}
+			r.lab[fmt.Sprintf("copy_max_dependents_on_a_field_%02d", min(maxDeps, 9))]++
+			if len(spare) > 0 {
+				r.lab["copy_with_field_of_3_or_5to7_dependents"]++
+			}
+			rec.firsts, nc.firsts = map[string]bool{}, map[string]bool{}
+			pairs = append(pairs, copyPair{rec.firsts, nc.firsts, spare})
 			for k, v := range rec.plain {
 				nc.plain[k] = v
 			}
@@ -910,11 +1019,11 @@ func c35script(t *rapid.T, erec *ev.Rec, l *lang) {
 			if rec.readonly {
 				r.lab[fmt.Sprintf("copy_of_readonly_readonly=%v", nc.readonly)]++
 			}
-			if len(recs) < 3 {
+			if len(recs) < maxRecs {
 				nc.name = fmt.Sprintf("r%d", len(recs))
 				recs = append(recs, nc)
 			} else {
-				i := 1 + gen.Uniform(t, "replace", 2)
+				i := 1 + gen.Uniform(t, "replace", maxRecs-1)
 				nc.name = recs[i].name
 				for k := range lastReads {
 					if strings.HasPrefix(k, nc.name+".") {
@@ -1044,6 +1153,46 @@ func c35script(t *rapid.T, erec *ev.Rec, l *lang) {
 	erec.LabelIf(diamond, "world_with_diamond")
 	erec.LabelIf(conditional, "world_with_conditional_rule")
 	erec.LabelIf(len(recs) > 1, "script_with_copy")
+	erec.LabelIf(w.wide, "world_wide_6to10_rules")
+	erec.LabelN("copies_made", len(pairs))
+	erec.Label(fmt.Sprintf("records_alive_at_end_%d", len(recs)))
+	diverge, pattern := false, false
+	for _, pr := range pairs {
+		if len(pr.src) == 0 || len(pr.dst) == 0 {
+			continue
+		}
+		erec.Label("copy_followed_by_first_evaluations_on_both_sides")
+		onlySrc, onlyDst := []string{}, []string{}
+		for f := range pr.src {
+			if !pr.dst[f] {
+				onlySrc = append(onlySrc, f)
+			}
+		}
+		for f := range pr.dst {
+			if !pr.src[f] {
+				onlyDst = append(onlyDst, f)
+			}
+		}
+		if len(onlySrc) > 0 && len(onlyDst) > 0 {
+			diverge = true
+			erec.Label("copy_followed_by_different_first_evaluations")
+			// both sides registered a different new dependent on a field that had 3 / 5-7 dependents
+			for _, f := range pr.spare {
+				a, b := false, false
+				for _, x := range onlySrc {
+					a = a || w.byName[x].direct[f]
+				}
+				for _, x := range onlyDst {
+					b = b || w.byName[x].direct[f]
+				}
+				if a && b {
+					pattern = true
+				}
+			}
+		}
+	}
+	erec.LabelIf(diverge, "script_with_diverging_first_evaluations_after_copy")
+	erec.LabelIf(pattern, "script_with_new_dependents_on_both_sides_of_a_3_or_5to7_field")
 	nattach := 0
 	for _, rd := range w.rules {
 		if rd.attach {
